@@ -53,6 +53,11 @@ CHECKS = {
             "Every RUN of a bundled procedure in every enumerated output and in ecb.b09 itself is checked for existence, arity and string/numeric/record kind against the parsed PARAM lists; prologue TYPE declarations are compared field for field with the library's.",
             "Trusted: vf/b09/syntax.py + three-kind typer vf/b09/typer.py. Outputs that do not parse are examined textually for empty/missing arguments.",
             "DESIGN.md §2 C14"),
+    "C06": ("model_checking",
+            "bounded-exhaustive enumeration of programs with arbitrary reference graphs (line-number sets x reference-bearing constructs x all targets incl. self / line 0 / missing line) x filter x add_suffix, against the generator's own reference graph",
+            "For every enumerated program the expected outcome (documented refusal, or the exact label set, jump targets, marker order and dispatcher routing) is computed from the generator's reference graph and compared with the parsed output of the real convert().",
+            "Trusted: vf/b09/syntax.py; dispatcher routing is interpreted for the three statement forms it uses; 'errnum' is bound to the injected error number (its being undefined is a separate known finding).",
+            "DESIGN.md §2 C06"),
 }
 
 PENDING_REASON = "check not built yet in this revision (work in progress; will be claimed when its explorer exists)"
